@@ -151,6 +151,32 @@ func init() {
 	}
 	reg("strings.Index", "Index(s,n)=r: r==-1 or s[r:r+len(n)]==n; for 1-byte n: r is the FIRST such position, r==-1 iff none", idx(false))
 	reg("strings.LastIndex", "LastIndex(s,n)=r: r==-1 or s[r:r+len(n)]==n; for 1-byte n: r is the LAST such position, r==-1 iff none", idx(true))
+	reg("strings.IndexAny", "IndexAny(s,chars)=r: r==-1 and no byte of s is in chars, or 0<=r<len(s), s[r] in chars and no earlier byte is (chars: constant ASCII set)", func(fv *FuncVerifier, st *State, env *Env, c *CallCtx) []Term {
+		cs, ok := constString(env, c.call.Args[1])
+		if !ok {
+			return []Term{fv.uf("str_indexany", SInt, "", c.args[0], c.args[1])}
+		}
+		for i := 0; i < len(cs); i++ {
+			if cs[i] >= 128 {
+				return []Term{fv.uf("str_indexany", SInt, "", c.args[0], c.args[1])}
+			}
+		}
+		w := fv.w
+		s := c.args[0]
+		r := fv.uf("str_indexany_"+fmt.Sprintf("%x", cs), SInt, "", s)
+		in := func(b Term) Term {
+			var ds []Term
+			for i := 0; i < len(cs); i++ {
+				ds = append(ds, eqT(b, IntLit(int64(cs[i]))))
+			}
+			return Or(ds...)
+		}
+		st.Assume(And(Le(IntLit(-1), r), Lt(r, w.SeqLen(s)), Implies(Ge(r, IntLit(0)), in(w.SeqAt(s, r)))))
+		j := Term{"j$", SInt}
+		st.Assume(T(SBool, "(forall ((j$ Int)) (! (=> (and (<= 0 j$) (< j$ (len_Int %s)) %s) (and (>= %s 0) (<= %s j$))) :pattern ((at_Int %s j$))))",
+			s.S, in(w.SeqAt(s, j)).S, r.S, r.S, s.S))
+		return []Term{r}
+	})
 	reg("strings.Join", "Join(xs,sep): a deterministic function of (xs,sep) (uninterpreted)", func(fv *FuncVerifier, st *State, env *Env, c *CallCtx) []Term {
 		return []Term{fv.uf("str_join", seqInt, "", c.args[0], c.args[1])}
 	})
@@ -267,6 +293,16 @@ func init() {
 		r := fv.sortedOf(c.args[0])
 		fv.assignTo(st, env, c.call.Args[0], r, nil)
 		return nil
+	})
+	reg("slices.Concat", "slices.Concat(a, b, ...): the concatenation of its arguments in order", func(fv *FuncVerifier, st *State, env *Env, c *CallCtx) []Term {
+		if c.call.Ellipsis.IsValid() || len(c.args) == 0 {
+			return fv.freshResults(st, c.sig)
+		}
+		r := c.args[0]
+		for _, a := range c.args[1:] {
+			r = fv.w.SeqCat(r, fv.coerce(a, r.Sort))
+		}
+		return []Term{r}
 	})
 	// ---- errors / fmt ----
 	reg("errors.New", "errors.New: a non-nil error (deterministic in its text)", func(fv *FuncVerifier, st *State, env *Env, c *CallCtx) []Term {
